@@ -199,7 +199,8 @@ func propSpecs() map[string]*PropSpec {
 		}})
 	add(&PropSpec{ID: "C07", Title: "Regeneration depends only on current sources, not on the old derived file", Level: "other",
 		Outside: []string{"every byte offset k of an interrupted write (three truncation points are replayed)", "edit sequences other than the listed histories", "go/loader and go/parser behaviour on arbitrary broken files"},
-		RunFn: runC07})
+		Bounds: func(tier string) Bounds { return DefaultBounds }, // the histories are the quantifier here; value bounds stay at the quick setting
+		RunFn:  runC07})
 	add(&PropSpec{ID: "C10", Title: "User source files are left intact", Level: "other",
 		Outside: []string{"that go/format reproduces every declaration and comment (go/format behaviour)", "file systems without POSIX open/write semantics", "load errors"},
 		RunFn: runC10})
